@@ -255,3 +255,24 @@ Proof.
   assert (ulp radix2 fexp64 p < m / 4503599627370496) by nra.
   lra.
 Qed.
+
+(* exactly the 1024 largest inputs are mapped to 1.0 *)
+Lemma res53_tie_is_one : B2R (res53 (2 ^ 64 - 2 ^ 10)) = 1.
+Proof.
+  rewrite <- SF2R_B2SF.
+  replace (B2SF (res53 (2 ^ 64 - 2 ^ 10))) with (S754_finite false 4503599627370496 (-52)) by (vm_compute; reflexivity).
+  unfold SF2R, F2R. cbn [Fnum Fexp cond_Zopp]. change (bpow radix2 (-52)) with (/ 4503599627370496). field.
+Qed.
+
+Lemma res53_one_iff v : (v < 2 ^ 64)%N -> (B2R (res53 v) = 1 <-> (2 ^ 64 - 2 ^ 10 <= v)%N).
+Proof.
+  intros Hv. split.
+  - intros H1. destruct (N.le_gt_cases (2 ^ 64 - 2 ^ 10) v) as [L|G]; [assumption|]. exfalso.
+    pose proof (res53_below_one v G) as B. rewrite bpow_m53 in B. lra.
+  - intros L. destruct (N.eq_dec v (2 ^ 64 - 2 ^ 10)) as [->|NE]; [apply res53_tie_is_one|].
+    apply Rle_antisym; [apply res53_unit_closed; assumption|].
+    destruct (res53_spec v Hv) as [E _]. rewrite E.
+    apply round_N_ge_midp; auto with typeclass_instances. apply fmt_1.
+    rewrite pred_1. unfold u1, unit_of. rewrite bpow_m53, bpow_m64.
+    assert (18446744073709550593 <= Z.of_N v)%Z as H2 by lia. apply IZR_le in H2. lra.
+Qed.
